@@ -171,10 +171,17 @@ def probe_f52(chk):
             ok = c.structure(c.unstructure(x), A) == x
         except Exception:  # noqa: BLE001
             ok = False
-        ctrl = c.structure(c.unstructure(B([B(None)])), B) == B([B(None)])
+        try:
+            # the CONTROL: the `Optional[...]` spelling must round-trip (a failure here is a defect of its own, e.g. a
+            # broken substitution of a nested `Self`)
+            ctrl = c.structure(c.unstructure(B([B(None)])), B) == B([B(None)])
+        except Exception:  # noqa: BLE001
+            ctrl = False
         chk.count("F52" + cfg_name(cfg), nontrivial=True)
         if not ctrl:
-            chk.violation(f"C01 oracle: Optional[list[Self]] does not round-trip [{cfg_name(cfg)}]", {"probe": "f52-control", "cfg": cfg})
+            chk.violation(f"C01 oracle: recursive class with Optional[list[Self]] does not round-trip: "
+                          f"structure(unstructure(B([B(None)]))) != B([B(None)]) [{cfg_name(cfg)}]",
+                          {"probe": "f52-control", "cfg": cfg})
         if ok:
             chk.note("F52-probe:not-reproduced(stale?)")
         elif registered:
